@@ -14,6 +14,7 @@ import (
 	"fmt"
 	"go/ast"
 	"go/build/constraint"
+	"go/constant"
 	"go/parser"
 	"go/token"
 	"go/types"
@@ -24,15 +25,16 @@ import (
 )
 
 type pkgInfo struct {
-	dir     string
-	path    string // import path
-	files   []*ast.File
-	names   []string // file names, parallel to files (absolute)
-	skipped []string // files excluded by build constraints
-	tpkg    *types.Package
-	info    *types.Info
-	errs    []types.Error
-	loading bool
+	dir      string
+	external bool   // loaded from the module cache (an @extern module)
+	path     string // import path
+	files    []*ast.File
+	names    []string // file names, parallel to files (absolute)
+	skipped  []string // files excluded by build constraints
+	tpkg     *types.Package
+	info     *types.Info
+	errs     []types.Error
+	loading  bool
 }
 
 type module struct {
@@ -41,13 +43,17 @@ type module struct {
 }
 
 type loader struct {
-	root    string
-	fset    *token.FileSet
-	mods    []module
-	byDir   map[string]*pkgInfo
-	stubs   map[string]*types.Package
-	decls   map[types.Object]*ast.FuncDecl // every function declared in a loaded local package
-	declPkg map[types.Object]*pkgInfo
+	root     string
+	modcache string
+	externs  []string             // module paths that may be loaded from the module cache
+	requires map[string]string    // module path -> version, from the require lines of the root's go.mod files
+	cOrigin  map[token.Pos]string // const name position -> C header that supplied its value
+	fset     *token.FileSet
+	mods     []module
+	byDir    map[string]*pkgInfo
+	stubs    map[string]*types.Package
+	decls    map[types.Object]*ast.FuncDecl // every function declared in a loaded local package
+	declPkg  map[types.Object]*pkgInfo
 }
 
 func fatalf(format string, args ...any) {
@@ -84,9 +90,10 @@ func buildTagsOK(f *ast.File) bool {
 	return true
 }
 
-func newLoader(root string) *loader {
+func newLoader(root string, externs []string, modcache string) *loader {
 	ld := &loader{root: root, fset: token.NewFileSet(), byDir: map[string]*pkgInfo{}, stubs: map[string]*types.Package{},
-		decls: map[types.Object]*ast.FuncDecl{}, declPkg: map[types.Object]*pkgInfo{}}
+		decls: map[types.Object]*ast.FuncDecl{}, declPkg: map[types.Object]*pkgInfo{},
+		requires: map[string]string{}, cOrigin: map[token.Pos]string{}, externs: externs, modcache: modcache}
 	// modules: go.mod in the root or in one of its immediate sub-directories
 	cands := []string{root}
 	ents, err := os.ReadDir(root)
@@ -104,11 +111,27 @@ func newLoader(root string) *loader {
 		if err != nil {
 			continue
 		}
+		inReq := false
 		for _, line := range strings.Split(string(b), "\n") {
 			line = strings.TrimSpace(line)
-			if strings.HasPrefix(line, "module ") {
+			if i := strings.Index(line, "//"); i >= 0 {
+				line = strings.TrimSpace(line[:i])
+			}
+			switch {
+			case strings.HasPrefix(line, "module "):
 				ld.mods = append(ld.mods, module{dir: d, path: strings.TrimSpace(strings.TrimPrefix(line, "module "))})
-				break
+			case line == "require (":
+				inReq = true
+			case line == ")":
+				inReq = false
+			case strings.HasPrefix(line, "require "):
+				if f := strings.Fields(line); len(f) == 3 {
+					ld.addRequire(f[1], f[2], filepath.Join(d, "go.mod"))
+				}
+			case inReq:
+				if f := strings.Fields(line); len(f) == 2 {
+					ld.addRequire(f[0], f[1], filepath.Join(d, "go.mod"))
+				}
 			}
 		}
 	}
@@ -116,6 +139,56 @@ func newLoader(root string) *loader {
 		fatalf("no go.mod found in %s or its sub-directories", root)
 	}
 	return ld
+}
+
+func (ld *loader) addRequire(mod, ver, where string) {
+	if old, ok := ld.requires[mod]; ok && old != ver {
+		// two modules of the source root pin different versions: only a problem if the module is @extern
+		for _, e := range ld.externs {
+			if e == mod {
+				fatalf("%s: module %s required at %s, elsewhere in the source root at %s", where, mod, ver, old)
+			}
+		}
+	}
+	ld.requires[mod] = ver
+}
+
+// escapeModPath: upper-case letters become !lower in the module cache.
+func escapeModPath(p string) string {
+	var sb strings.Builder
+	for _, r := range p {
+		if r >= 'A' && r <= 'Z' {
+			sb.WriteByte('!')
+			sb.WriteRune(r + ('a' - 'A'))
+		} else {
+			sb.WriteRune(r)
+		}
+	}
+	return sb.String()
+}
+
+// externDir maps an import path to a directory of the module cache, for the modules declared
+// @extern in the whitelist.  A declared module that is not required by a go.mod of the source root,
+// or whose directory is missing from the module cache, is fatal.
+func (ld *loader) externDir(path string) string {
+	for _, m := range ld.externs {
+		if path != m && !strings.HasPrefix(path, m+"/") {
+			continue
+		}
+		ver, ok := ld.requires[m]
+		if !ok {
+			fatalf("@extern module %s is not required by any go.mod below %s", m, ld.root)
+		}
+		if ld.modcache == "" {
+			fatalf("import %s needs the module cache, but no -modcache was given", path)
+		}
+		d := filepath.Join(ld.modcache, filepath.FromSlash(escapeModPath(m))+"@"+ver, filepath.FromSlash(strings.TrimPrefix(path, m)))
+		if st, err := os.Stat(d); err != nil || !st.IsDir() {
+			fatalf("package %s (module %s %s) not found in the module cache: %s", path, m, ver, d)
+		}
+		return d
+	}
+	return ""
 }
 
 // localDir maps an import path to a directory of the source root ("" if it is not local).
@@ -151,6 +224,9 @@ func (ld *loader) Import(path string) (*types.Package, error) {
 	if d := ld.localDir(path); d != "" {
 		return ld.loadDir(d).tpkg, nil
 	}
+	if d := ld.externDir(path); d != "" {
+		return ld.loadExtern(d, path).tpkg, nil
+	}
 	if sp, ok := ld.stubs[path]; ok {
 		return sp, nil
 	}
@@ -160,6 +236,8 @@ func (ld *loader) Import(path string) (*types.Package, error) {
 		sp = bitsStub()
 	case "fmt":
 		sp = fmtStub()
+	case "math":
+		sp = mathStub()
 	default:
 		parts := strings.Split(path, "/")
 		name := parts[len(parts)-1]
@@ -190,12 +268,33 @@ func mkFunc(p *types.Package, name string, params []types.Type, result types.Typ
 // standard library: the argument is uint/uintN, the result is int).
 func bitsStub() *types.Package {
 	p := types.NewPackage("math/bits", "bits")
-	for _, pre := range []string{"LeadingZeros", "TrailingZeros", "Len"} {
+	for _, pre := range []string{"LeadingZeros", "TrailingZeros", "Len", "OnesCount"} {
 		mkFunc(p, pre, []types.Type{types.Typ[types.Uint]}, types.Typ[types.Int], false)
 		mkFunc(p, pre+"8", []types.Type{types.Typ[types.Uint8]}, types.Typ[types.Int], false)
 		mkFunc(p, pre+"16", []types.Type{types.Typ[types.Uint16]}, types.Typ[types.Int], false)
 		mkFunc(p, pre+"32", []types.Type{types.Typ[types.Uint32]}, types.Typ[types.Int], false)
 		mkFunc(p, pre+"64", []types.Type{types.Typ[types.Uint64]}, types.Typ[types.Int], false)
+	}
+	p.MarkComplete()
+	return p
+}
+
+// mathStub declares the integer limit constants of package math (values fixed by the language).
+func mathStub() *types.Package {
+	p := types.NewPackage("math", "math")
+	ut := types.Typ[types.UntypedInt]
+	add := func(name string, v constant.Value) {
+		p.Scope().Insert(types.NewConst(token.NoPos, p, name, ut, v))
+	}
+	pow := func(k uint) constant.Value { return constant.Shift(constant.MakeInt64(1), token.SHL, k) }
+	one := constant.MakeInt64(1)
+	for _, w := range []struct {
+		n string
+		k uint
+	}{{"8", 8}, {"16", 16}, {"32", 32}, {"64", 64}, {"", 64}} {
+		add("MaxInt"+w.n, constant.BinaryOp(pow(w.k-1), token.SUB, one))
+		add("MinInt"+w.n, constant.UnaryOp(token.SUB, pow(w.k-1), 0))
+		add("MaxUint"+w.n, constant.BinaryOp(pow(w.k), token.SUB, one))
 	}
 	p.MarkComplete()
 	return p
@@ -209,14 +308,21 @@ func fmtStub() *types.Package {
 	return p
 }
 
-func (ld *loader) loadDir(dir string) *pkgInfo {
+func (ld *loader) loadDir(dir string) *pkgInfo { return ld.load(dir, "", false) }
+
+func (ld *loader) loadExtern(dir, path string) *pkgInfo { return ld.load(dir, path, true) }
+
+func (ld *loader) load(dir, path string, external bool) *pkgInfo {
 	if p, ok := ld.byDir[dir]; ok {
 		if p.loading {
 			fatalf("import cycle through %s", dir)
 		}
 		return p
 	}
-	p := &pkgInfo{dir: dir, path: ld.importPathOf(dir), loading: true}
+	if !external {
+		path = ld.importPathOf(dir)
+	}
+	p := &pkgInfo{dir: dir, path: path, external: external, loading: true}
 	ld.byDir[dir] = p
 	ents, err := os.ReadDir(dir)
 	if err != nil {
@@ -244,6 +350,7 @@ func (ld *loader) loadDir(dir string) *pkgInfo {
 		p.files = append(p.files, f)
 		p.names = append(p.names, full)
 	}
+	ld.substCConsts(p)
 	if len(p.files) == 0 {
 		fatalf("no Go files in %s", dir)
 	}
@@ -282,20 +389,31 @@ func (ld *loader) loadDir(dir string) *pkgInfo {
 	return p
 }
 
+// relName: path relative to the source root, or "modcache:<path below the module cache>".
+func (ld *loader) relName(file string) string {
+	if ld.modcache != "" && strings.HasPrefix(file, ld.modcache+string(filepath.Separator)) {
+		return "modcache:" + filepath.ToSlash(strings.TrimPrefix(file, ld.modcache+string(filepath.Separator)))
+	}
+	rel, err := filepath.Rel(ld.root, file)
+	if err != nil {
+		rel = file
+	}
+	return filepath.ToSlash(rel)
+}
+
+// absName is the inverse of relName.
+func (ld *loader) absName(rel string) string {
+	if strings.HasPrefix(rel, "modcache:") {
+		return filepath.Join(ld.modcache, filepath.FromSlash(strings.TrimPrefix(rel, "modcache:")))
+	}
+	return filepath.Join(ld.root, filepath.FromSlash(rel))
+}
+
 func (ld *loader) pos(p token.Pos) string {
 	pp := ld.fset.Position(p)
-	rel, err := filepath.Rel(ld.root, pp.Filename)
-	if err != nil {
-		rel = pp.Filename
-	}
-	return fmt.Sprintf("%s:%d", filepath.ToSlash(rel), pp.Line)
+	return fmt.Sprintf("%s:%d", ld.relName(pp.Filename), pp.Line)
 }
 
 func (ld *loader) relFile(p token.Pos) string {
-	pp := ld.fset.Position(p)
-	rel, err := filepath.Rel(ld.root, pp.Filename)
-	if err != nil {
-		rel = pp.Filename
-	}
-	return filepath.ToSlash(rel)
+	return ld.relName(ld.fset.Position(p).Filename)
 }
